@@ -179,6 +179,17 @@ func c20WriteFile(path, content string, n int) error {
 	if err := os.WriteFile(tmp, []byte(content), 0o600); err != nil {
 		return err
 	}
+	// every other replacement arrives with a modification time OLDER than (n odd) or equal to (n%4 == 0) the file it
+	// replaces, as `mv` of a prepared copy, `rsync -t`, `cp -p` or a restore from backup produce
+	if st, err := os.Stat(path); err == nil {
+		switch {
+		case n%2 == 1:
+			old := st.ModTime().Add(-time.Duration(n+1) * time.Hour)
+			_ = os.Chtimes(tmp, old, old)
+		case n%4 == 0:
+			_ = os.Chtimes(tmp, st.ModTime(), st.ModTime())
+		}
+	}
 	return os.Rename(tmp, path)
 }
 
